@@ -5,10 +5,26 @@ Import ListNotations.
 From PS Require Import Base.Corr Gen.Skel Model.Skel.
 Open Scope string_scope.
 
-Definition c19_skel : skeleton := mkSkeleton skel_funs skel_ifaces skel_slots skel_roots.
+Definition c19_skel_full : skeleton := mkSkeleton skel_funs skel_ifaces skel_slots skel_roots.
+
+(* KNOWN FINDING C19/2 (confirmed by the race detector, findings/C19.json): SwapStateMachine.Recover runs the action of
+   the current state and persists the swap WITHOUT the swap's mutex although RecoverSwaps has already put the swap into
+   the active map, so messages and notifications for it are handled concurrently.  Taken out of the skeleton by removing
+   exactly those two calls from Recover: (function, (op code 8 = CallIface, interface method)).  (It is not repaired
+   because with the mutex held the synchronous CSV callback of finding C18/1 would block recovery.) *)
+Definition c19_known_ops : list (string * (N * string)) := [
+  ("swap.SwapStateMachine.Recover", (8%N, "swap.Action.Execute"));
+  ("swap.SwapStateMachine.Recover", (8%N, "swap.Store.UpdateData"))
+].
+Definition c19_known_op_ids : list (N * (N * N)) :=
+  resolve_ops skel_fn_names skel_lock_names skel_field_names skel_iface_names skel_slot_names c19_known_ops.
+
+Definition c19_skel : skeleton := erase c19_skel_full c19_known_op_ids.
 Definition c19_prog : prog := prog_of c19_skel.
+Definition c19_prog_full : prog := prog_of c19_skel_full.
 (* evaluated once, when this file is compiled against the regenerated skeleton *)
 Definition c19_must : list (N * list N) := Eval vm_compute in must_hold c19_prog skel_roots.
+Definition c19_must_full : list (N * list N) := Eval vm_compute in must_hold c19_prog_full skel_roots.
 
 (* ---------- exclusions, by name ---------- *)
 
@@ -17,7 +33,9 @@ Definition c19_must : list (N * list N) := Eval vm_compute in must_hold c19_prog
    swap's own mutex, attaches the request to the data (ApplyToSwapData).  (field, function, function) *)
 Definition c19_known : list (string * (string * string)) := [
   ("swap.SwapData.SwapInRequest", ("swap.SwapData.GetScid", "swap.SwapInRequestMessage.ApplyToSwapData"));
-  ("swap.SwapData.SwapOutRequest", ("swap.SwapData.GetScid", "swap.SwapOutRequestMessage.ApplyToSwapData"))
+  ("swap.SwapData.SwapOutRequest", ("swap.SwapData.GetScid", "swap.SwapOutRequestMessage.ApplyToSwapData"));
+  (* finding C19/2: Recover itself reads the current state unlocked *)
+  ("swap.SwapStateMachine.Current", ("swap.SwapStateMachine.Recover", "swap.SwapStateMachine.setState"))
 ].
 
 (* start-up: these run once, from main, before the service accepts messages, commands or notifications
@@ -60,7 +78,7 @@ Definition no_excuse : excuse := fun _ _ _ => false.
 Definition c19_excuse_full : excuse := excuse_of [] (c19_init_ids ++ c19_private_ids).
 
 Definition c19_skeleton_ok : bool :=
-  is_nil skel_warnings && well_formed c19_skel &&
+  is_nil skel_warnings && well_formed c19_skel_full &&
   lockset_check c19_prog (lookupL c19_must) skel_roots c19_excuse.
 
 Definition names_of_triples (ts : list (field * (fname * fname))) : list (string * (string * string)) :=
@@ -70,7 +88,10 @@ Definition names_of_triples (ts : list (field * (fname * fname))) : list (string
 Definition c19_unexcused : list (string * (string * string)) :=
   names_of_triples (bad_pairs_norm c19_prog (lookupL c19_must) c19_excuse).
 Definition c19_static_pairs : list (string * (string * string)) :=
-  names_of_triples (bad_pairs_norm c19_prog (lookupL c19_must) no_excuse).
+  names_of_triples (bad_pairs_norm c19_prog_full (lookupL c19_must_full) no_excuse).
+(* what the FULL statement (full skeleton, only the start-up / private exclusions) is missing *)
+Definition c19_full_missing : list (string * (string * string)) :=
+  names_of_triples (bad_pairs_norm c19_prog_full (lookupL c19_must_full) c19_excuse_full).
 
 (* ---------- race-detector stress ---------- *)
 
